@@ -203,6 +203,15 @@ func (db *DB) FindInBatches(dest interface{}, batchSize int, fc func(tx *DB, bat
 		}
 	}
 
+	// the key condition added for the following batches has to restrict the chain's conditions as a
+	// whole: group them if one of them is an OR (a OR b AND id > ? would return the rows of a again)
+	if c, ok := tx.Statement.Clauses["WHERE"]; ok {
+		if where, ok := c.Expression.(clause.Where); ok && hasOrCondition(where.Exprs) {
+			c.Expression = clause.Where{Exprs: []clause.Expression{clause.And(where.Exprs...)}}
+			tx.Statement.Clauses["WHERE"] = c
+		}
+	}
+
 	for {
 		result := queryDB.Limit(batchSize).Find(dest)
 		rowsAffected += result.RowsAffected
@@ -246,6 +255,16 @@ func (db *DB) FindInBatches(dest interface{}, batchSize int, fc func(tx *DB, bat
 
 	tx.RowsAffected = rowsAffected
 	return tx
+}
+
+// hasOrCondition reports whether one of the conditions is joined to its neighbours with OR
+func hasOrCondition(exprs []clause.Expression) bool {
+	for _, expr := range exprs {
+		if orCond, ok := expr.(clause.OrConditions); ok && len(orCond.Exprs) == 1 {
+			return true
+		}
+	}
+	return false
 }
 
 func (db *DB) assignInterfacesToValue(values ...interface{}) {
